@@ -3,7 +3,7 @@ NEXT NNext
 CONSTANTS
   Mode = "pairs"
   Depth = 1
-  NFixed = {}
+  NFixed = {"len_reversed_mirrored"}
   NBug = "cmp_neg_not_negated"
   NVSpace = "tiny"
   NCompoundV = "none"
